@@ -137,7 +137,7 @@ def setval(n, kind, arg, refs, docs):
         return True
     if kind == "sl":
         n.kind = "S"; n.val = LIT[int(arg)]; return True
-    if kind in ("sc", "sv", "sj"):
+    if kind in ("sc", "sv", "sj", "sva"):
         n.kind = "S"; n.val = bytes.fromhex(arg) if arg != "-" else b""; return True
     if kind in ("sp", "sjl"):
         v = bytes.fromhex(arg) if arg != "-" else b""
@@ -313,7 +313,7 @@ def gen_history(rnd, nops, geo, strkind=None, ops_weights=None, obs_every=1, nul
             if not cands:
                 return "null", "-"
             return k, str(rnd.choice(cands))
-    void_kinds = ("null", "sl", "sc", "sv", "sp", "sj", "sjl", "raw", "ref", "doc")
+    void_kinds = ("null", "sl", "sc", "sv", "sva", "sp", "sj", "sjl", "raw", "ref", "doc")
     choices = ops_weights or ["root", "root", "mem", "memw", "elem", "elemw", "set", "set", "setm", "setm", "sete", "add", "add", "addv", "toarr", "toobj", "remi", "remk",
                               "remi", "remk", "setm", "add", "memw", "elemw", "clear", "cleardoc", "copydoc", "swapdoc", "shrink", "deser", "deser"]
     count = 0
